@@ -2,7 +2,10 @@ package localcachedmap
 
 // C06 — the lookup key built from the key-field values must be injective.
 
-import "github.com/relex/slog-agent/zz_verif/sym"
+import (
+	"github.com/relex/slog-agent/util"
+	"github.com/relex/slog-agent/zz_verif/sym"
+)
 
 func verifTuple(prefix string, m, maxLen int) []string {
 	vals := make([]string, m)
@@ -60,4 +63,31 @@ func VerifC06_LookupKeyInjective() {
 	} else {
 		sym.Reach("different")
 	}
+}
+
+// VerifC06_KeysAreCopied: the key values a pipeline is created with must not
+// alias the record's (pooled, reused) buffer: overwriting the buffer after the
+// lookup leaves the constructor's keys and later lookups intact.
+//
+//verif:reach checked
+func VerifC06_KeysAreCopied() {
+	n := sym.Choice("len", 3) + 1
+	buf := sym.Bytes("value", n, n)
+	orig := string(buf) // private copy kept by the harness
+	var createdKeys []string
+	gm := NewGlobalMap[int, int](
+		func(keys []string, onStopped func()) int { createdKeys = keys; return 1 },
+		func(int) {},
+		func(g int) int { return g },
+	)
+	lm := gm.MakeLocalMap()
+	var notified []string
+	lm.GetOrCreate([]string{util.StringFromBytes(buf), "x"}, func(perm []string) { notified = perm })
+	for i := range buf {
+		buf[i] = sym.Byte("overwrite") // the record is released and its buffer reused
+	}
+	sym.Assert(len(createdKeys) == 2 && createdKeys[0] == orig && createdKeys[1] == "x", "constructor keys survive reuse of the record buffer")
+	sym.Assert(len(notified) == 2 && notified[0] == orig, "notified keys survive reuse of the record buffer")
+	sym.Assert(lm.GetOrCreate([]string{orig, "x"}, func([]string) {}) == 1, "the original tuple still finds its object")
+	sym.Reach("checked")
 }
